@@ -50,16 +50,24 @@ def world_dir():
     name that rule matches: whatever redo makes of that name, the user's files stay"""
     return World(
         "owner-dir", {"src": ["0", "1"]},
-        {"default.pkg.do": [S(deps=["src"], out="dir")]},
+        {"default.pkg.do": [S(deps=["src"], out="dir")], "default.out.do": [S(deps=["src"])]},
         ["g.pkg"], ["g.pkg"],
-        prefixes=[[["uwrite", "u.pkg/keep", "K\n"], ["uwrite", "u.pkg/sub/more", "M\n"]]])
+        # (u.out: a directory of the user's under a name whose rule produces a regular FILE)
+        prefixes=[[["uwrite", "u.pkg/keep", "K\n"], ["uwrite", "u.pkg/sub/more", "M\n"], ["uwrite", "u.out/keep", "K\n"]]])
 
 
 def alphabet_dir(w, h):
     ops = [["ifchange", ["u.pkg"]], ["redo", ["u.pkg"]], ["ifchange", ["g.pkg"]], ["redo", ["g.pkg"]], ["ifchange", ["g.pkg", "u.pkg"]]]
     cur = e1prop.cur_values(w, h)
     ops.append(["edit", "src", "1" if cur["src"] == "0" else "0"])
-    ops += [["uwrite", "u.pkg/keep", "K\n"], ["uwrite", "u.pkg/keep", "K2 longer\n"], ["rm", "u.pkg/keep"]]
+    if not any(op[0] == "udirfile" and op[1] == "u.pkg" for op in h):
+        ops += [["uwrite", "u.pkg/keep", "K\n"], ["uwrite", "u.pkg/keep", "K2 longer\n"], ["rm", "u.pkg/keep"]]
+        # the user moves the directory away and puts a regular file of theirs under the name (redo may have the name on
+        # record as a directory by then)
+        ops.append(["udirfile", "u.pkg", "mine\n"])
+    ops += [["ifchange", ["u.out"]], ["redo", ["u.out"]]]
+    if not any(op[0] == "udirfile" and op[1] == "u.out" for op in h):
+        ops.append(["udirfile", "u.out", "mine too\n"])
     return ops
 
 
